@@ -9,7 +9,7 @@ COMMON_ASSUME = [
 PROPS = {
     "C17": {
         "stages": [{"bin": "err"}],
-        "rule": "decision table written from the statement: for every fallible public routine (7 single-input summary statistics + entropy on f64/f32/i32; min/max/argmin/argmax; 8 weighted routines; 10 deviation measures on f64 and i64; kl_divergence / cross_entropy; 5 quantile entry points on i32/N64/f64; pearson_correlation; cov; 5 strategies + GridBuilder) x first-input shapes {(4), (2,3), (3,1,2), (1), (0), (0,3), (3,0), (0,0), (2,0,3)} (+9 more in thorough) x second argument {same shape, same element count other shape, broadcast-compatible, one axis longer, different rank} in two layouts / per-axis weights of right and wrong length on every axis x q lists {valid, single, empty list, one < 0, one > 1, several invalid (first offending one carried), invalid on an empty axis, 1+2^-52, -0.0, +inf} x 3 layouts (8 thorough): expected cell in {Ok, EmptyInput, ShapeMismatch(first, second), InvalidQuantile(q)} or unconstrained (observed and counted, never judged: empty first input AND mismatching second argument for the sum-type routines; cov with zero observations and ddof >= 0; constant data for strategies; a zero-column matrix for GridBuilder). The rank-0 shape [] (one element) is one of the first shapes; all-NaN and all-None inputs for the skip-NaN quantile (the request is validated first); 4 layouts in the quick tier (C, contiguous F, stepped F, permuted), 8 in thorough. Second operands of another rank include shapes that are a prefix of / prefixed by the first shape (trailing unit axis appended, last axis dropped). Weight VALUES are varied too (all zero, +1/-1 with zero total, all one): a non-empty input never answers with an error. The table is enumerated completely; each cell is one distinct case (counted exactly); a panic in a constrained cell is a violation; weighted_sum / weighted_sum_axis of empty inputs must be zero.",
+        "rule": "decision table written from the statement: for every fallible public routine (7 single-input summary statistics + entropy on f64/f32/i32; min/max/argmin/argmax; 8 weighted routines; 10 deviation measures on f64 and i64; kl_divergence / cross_entropy; 5 quantile entry points on i32/N64/f64; pearson_correlation; cov; 5 strategies + GridBuilder) x first-input shapes {(4), (2,3), (3,1,2), (1), (0), (0,3), (3,0), (0,0), (2,0,3)} (+9 more in thorough) x second argument {same shape, same element count other shape, broadcast-compatible, one axis longer, different rank} in two layouts / per-axis weights of right and wrong length on every axis x q lists {valid, single, empty list, one < 0, one > 1, several invalid (first offending one carried), invalid on an empty axis, 1+2^-52, -0.0, +inf} x 3 layouts (8 thorough): expected cell in {Ok, EmptyInput, ShapeMismatch(first, second), InvalidQuantile(q)} or unconstrained (observed and counted, never judged: empty first input AND mismatching second argument for the sum-type routines; cov with zero observations and ddof >= 0; constant data for strategies; a zero-column matrix for GridBuilder). A second operand of another shape whose STRIDES equal those of the first (windows of parents with one row pitch). The rank-0 shape [] (one element) is one of the first shapes; all-NaN and all-None inputs for the skip-NaN quantile (the request is validated first); 4 layouts in the quick tier (C, contiguous F, stepped F, permuted), 8 in thorough. Second operands of another rank include shapes that are a prefix of / prefixed by the first shape (trailing unit axis appended, last axis dropped). Weight VALUES are varied too (all zero, +1/-1 with zero total, all one): a non-empty input never answers with an error. The table is enumerated completely; each cell is one distinct case (counted exactly); a panic in a constrained cell is a violation; weighted_sum / weighted_sum_axis of empty inputs must be zero.",
         "exhaustive": True,
         "exhaustive_bound": {"quick": "the full table for 9 first-input shapes x 3 layouts", "thorough": "18 first-input shapes x 8 layouts"},
         "assumptions": COMMON_ASSUME + ["combinations the statement does not decide are reported as unconstrained, not judged"],
@@ -48,7 +48,7 @@ PROPS = {
     },
     "C09": {
         "stages": [{"kind": "oracle", "bin": "num"}],
-        "rule": "integers (i8, i16, i32, i64, i128, num-bigint BigInt; in-process): count_eq / count_neq / sq_l2_dist / l1_dist / linf_dist equal the exact i128 values (cases whose exact distance does not fit the type are skipped and counted), exactly symmetric, zero for identical arguments, derived measures equal the documented f64 function of the exact distance; operands in 4 memory layouts each (C, F, reversed, stepped). Floats (f32, f64; logged, judged offline): sq_l2 / l1 within gamma_k * sum|terms|, linf EXACTLY the max of the correctly rounded |a-b|, l2 / mae / mse / rmse within 2 ulp of the documented function of the RETURNED distance, PSNR within 8u|r| + 40u/ln10, symmetry with swapped operands, counts exact, also for pairs carrying NaNs (NaN equals nothing) and for an array compared WITH ITSELF (same buffer); every pairing of 8 zoo layouts for the two operands (a fifth of the pairs share ONE non-contiguous layout with a unit inner stride: a window of columns, every other row) and 5 ownership pairings (view/view, owned/view, ArcArray/view, CowArray/owned, ViewMut/ArcArray); shapes of 1..4 dims. distinct = hash of (type, shape, layout pair, ownership, data).",
+        "rule": "integers (i8, i16, i32, i64, i128, num-bigint BigInt; in-process): count_eq / count_neq / sq_l2_dist / l1_dist / linf_dist equal the exact i128 values (a case with a difference that does not fit the type is skipped and counted; when only the sums of (squared) differences overflow - values over half the range of an 8..64-bit type, one case in seven - linf_dist and the counts are still judged), exactly symmetric, zero for identical arguments, derived measures equal the documented f64 function of the exact distance; operands in 6 memory layouts each (C, F, reversed, stepped, a window of columns, every other row), a quarter of the pairs in the same layout. Floats (f32, f64; logged, judged offline): sq_l2 / l1 within gamma_k * sum|terms|, linf EXACTLY the max of the correctly rounded |a-b|, l2 / mae / mse / rmse within 2 ulp of the documented function of the RETURNED distance, PSNR within 8u|r| + 40u/ln10, symmetry with swapped operands, counts exact, also for pairs carrying NaNs (NaN equals nothing) and for an array compared WITH ITSELF (same buffer); every pairing of 8 zoo layouts for the two operands (a fifth of the pairs share ONE non-contiguous layout with a unit inner stride: a window of columns, every other row) and 5 ownership pairings (view/view, owned/view, ArcArray/view, CowArray/owned, ViewMut/ArcArray); shapes of 1..4 dims. distinct = hash of (type, shape, layout pair, ownership, data).",
         "exhaustive": False,
         "assumptions": COMMON_ASSUME,
     },
@@ -92,7 +92,7 @@ PROPS = {
                    {"kind": "sanitizer", "tool": "miri", "tiers": ["quick", "thorough"]},
                    {"kind": "sanitizer", "tool": "asan", "tiers": ["quick", "thorough"]},
                    {"kind": "sanitizer", "tool": "memcheck", "tiers": ["thorough"]}],
-        "rule": "exhaustive part: ALL missing/non-missing masks of length 0..10 x 18 (stride, offset) pairs with strides {1,2,3,-1,-2,-3} x 14 element types (f32, f64, Option of u8..u128, i8..i128, N32, N64); each (type, mask, layout) is one distinct case, counted exactly (length >= 2 = non-trivial). Monitors per call: returned length == number of non-missing inputs; every element ADDRESS of the returned view is an element address of the argument view (checked before anything is read through it); no missing value in the view's memory (read as the underlying type from the parent buffer); multiset == non-missing inputs; iteration through the NotNan-typed view yields the same values; lane multiset incl. missing values and guard cells unchanged; determinism (two identical inputs, same view); idempotence (second application leaves the sequence unchanged); is_nan / try_as_not_nan agree with the representation. Random part: masks of length 11..70, strides up to +-7; lanes handed out by map_axis_skipnan_mut along every axis of 1..3-D zoo arrays (address set of the handed-out view must lie inside exactly one lane).",
+        "rule": "exhaustive part: ALL missing/non-missing masks of length 0..10 x 18 (stride, offset) pairs with strides {1,2,3,-1,-2,-3} x 14 element types (f32, f64, Option of u8..u128, i8..i128, N32, N64); each (type, mask, layout) is one distinct case, counted exactly (length >= 2 = non-trivial). Monitors per call: returned length == number of non-missing inputs; every element ADDRESS of the returned view is an element address of the argument view (checked before anything is read through it); no missing value in the view's memory (read as the underlying type from the parent buffer); multiset == non-missing inputs; iteration through the NotNan-typed view yields the same values; lane multiset incl. missing values and guard cells unchanged; determinism (two identical inputs, same view); idempotence (second application leaves the sequence unchanged); is_nan / try_as_not_nan agree with the representation. Random part: masks of length 11..70 (a third of them a few values, one long run of missing / present values, a few values), strides up to +-7; lanes handed out by map_axis_skipnan_mut along every axis of 1..3-D zoo arrays (address set of the handed-out view must lie inside exactly one lane).",
         "exhaustive": True,
         "exhaustive_bound": {"quick": "all masks of length <= 10 x 18 stride/offset pairs x 14 element types", "thorough": "same, plus 200k longer random masks, 600k n-D lane cases and two f32 lanes of 2^31+5 and 2^32+3 elements (release profile, when memory allows)"},
         "assumptions": COMMON_ASSUME + ["behaviour depends only on the missing/non-missing pattern (stated in the property)"],
@@ -101,7 +101,7 @@ PROPS = {
         "stages": [{"bin": "mem"},
                    {"kind": "sanitizer", "tool": "asan", "tiers": ["quick", "thorough"]},
                    {"kind": "sanitizer", "tool": "miri", "tiers": ["thorough"]}],
-        "rule": "reference = the statement's own definition: the harness deletes the missing values from the logical snapshot itself and (a) scans the rest independently, (b) calls the crate's plain routine on an owned contiguous copy of the filtered data. Operations: min/max_skipnan, argmin/argmax_skipnan (index designates a position of the original array holding the value; EmptyInput iff nothing is left), fold_skipnan / visit_skipnan / indexed_fold_skipnan (multiset of (index,) value == filtered multiset), fold_axis_skipnan and map_axis_skipnan_mut (per lane, each lane exactly once, result at the lane's logical index), quantile_axis_skipnan_mut vs quantile_mut on the filtered lane (all 5 strategies, q on / between indices). The per-axis fold is also compared as a SEQUENCE (order-sensitive closure: increasing index along the axis, like the plain fold_axis). Requests also on the rank grid j/(m-1), (j+.5)/(m-1) of one lane's REMAINING count m; arrays without lanes (a zero-length axis other than the reduced one). Types f32, f64, Option<i32,u8,i64,N64>; masks none / all / first-only / last-only / random / ties; 1..3 dims, every axis, zoo layouts, 5 pivot policies. distinct = hash of (type, shape, axis, layout, data bits); non-trivial = >= 2 elements.",
+        "rule": "reference = the statement's own definition: the harness deletes the missing values from the logical snapshot itself and (a) scans the rest independently, (b) calls the crate's plain routine on an owned contiguous copy of the filtered data. Operations: min/max_skipnan, argmin/argmax_skipnan (index designates a position of the original array holding the value; EmptyInput iff nothing is left), fold_skipnan / visit_skipnan / indexed_fold_skipnan (multiset of (index,) value == filtered multiset), fold_axis_skipnan and map_axis_skipnan_mut (per lane, each lane exactly once, result at the lane's logical index), quantile_axis_skipnan_mut vs quantile_mut on the filtered lane (all 5 strategies, q on / between indices). The per-axis fold is also compared as a SEQUENCE (order-sensitive closure: increasing index along the axis, like the plain fold_axis). Lanes of 18..60 made of a few values, a long run of missing values and a few values. Requests also on the rank grid j/(m-1), (j+.5)/(m-1) of one lane's REMAINING count m; arrays without lanes (a zero-length axis other than the reduced one). Types f32, f64, Option<i32,u8,i64,N64>; masks none / all / first-only / last-only / random / ties; 1..3 dims, every axis, zoo layouts, 5 pivot policies. distinct = hash of (type, shape, axis, layout, data bits); non-trivial = >= 2 elements.",
         "exhaustive": False,
         "assumptions": COMMON_ASSUME,
     },
